@@ -432,6 +432,17 @@ func (c *fctx) assignSpecial(e *emitter, ind int, st *ast.AssignStmt) bool {
 				c.assignTo(e, ind, st.Lhs[1], t+".2.1", define)
 				return true
 			}
+			if lt, _ := leanTypeOf(c.typeOf(call.Args[0])); isId && lt == "Go.Src" {
+				// a plain buffer variable, from a source that may fail (Go.Src)
+				bv := c.info().Uses[id].(*types.Var)
+				t := c.tmp()
+				e.add(ind, fmt.Sprintf("let %s := Go.io_ReadFull %s (Go.len %s)", t, c.expr(call.Args[0]), c.nameOf(bv)))
+				c.assignTo(e, ind, call.Args[0], t+".2.2", false)
+				e.add(ind, fmt.Sprintf("%s := Go.writeAt %s (0 : Int) %s.1", c.nameOf(bv), c.nameOf(bv), t))
+				c.assignTo(e, ind, st.Lhs[0], "(Go.len "+t+".1)", define)
+				c.assignTo(e, ind, st.Lhs[1], t+".2.1", define)
+				return true
+			}
 			if lt, _ := leanTypeOf(c.typeOf(call.Args[0])); !isId || lt != "(List UInt8)" {
 				c.fail(st, "io.ReadFull into something that is neither a view nor a variable")
 			}
